@@ -23,6 +23,9 @@ pub struct Rewriter {
     pub dropped: Vec<String>,
     pub errors: Vec<String>,
     counters: std::collections::BTreeMap<String, usize>,
+    pub index_map: std::collections::BTreeMap<String, String>,
+    /// R-binop: "<ident><op>" (left operand's variable, possibly behind `&`) -> function
+    pub binop_map: std::collections::BTreeMap<String, String>,
 }
 
 fn txt<T: ToTokens>(t: &T) -> String {
@@ -117,7 +120,7 @@ fn bind_elem(p: &Pat, place: &Expr, idx: &Ident, mode: &str, used_refpat: &mut b
 
 impl Rewriter {
     pub fn new(enabled: HashSet<String>) -> Self {
-        Rewriter { enabled, log: vec![], dropped: vec![], errors: vec![], counters: Default::default() }
+        Rewriter { enabled, log: vec![], dropped: vec![], errors: vec![], counters: Default::default(), index_map: Default::default(), binop_map: Default::default() }
     }
     fn on(&self, r: &str) -> bool {
         self.enabled.contains(r)
@@ -408,6 +411,137 @@ impl Rewriter {
         Some(res)
     }
 
+    // ---- R-fold (general): X.into_iter().fold(init, |ACC_PAT, X_PAT| body) -----------------
+    /// `it.fold(init, f)` is `let mut acc = init; for x in it { acc = f(acc, x); } acc`; the closure's
+    /// parameter patterns become `let` patterns.
+    fn r_fold_general(&mut self, e: &Expr) -> Option<Expr> {
+        let Expr::MethodCall(mc) = e else { return None };
+        if mc.method != "fold" || mc.args.len() != 2 {
+            return None;
+        }
+        let Expr::Closure(cl) = &mc.args[1] else { return None };
+        if cl.inputs.len() != 2 {
+            return None;
+        }
+        let (kind, base) = self.iter_source(&mc.receiver)?;
+        if kind != "into_iter" && kind != "range" {
+            return None;
+        }
+        let accp = pat_inner(&cl.inputs[0]).clone();
+        let xp = pat_inner(&cl.inputs[1]).clone();
+        let init = &mc.args[0];
+        let acc = self.fresh("acc");
+        let x = self.fresh("x");
+        let (stmts, tail) = closure_body_stmts(&cl.body);
+        let tail = tail?;
+        let res: Expr = parse_quote!({
+            let mut #acc = #init;
+            for #x in #base {
+                let #accp = #acc;
+                let #xp = #x;
+                #(#stmts)*
+                #acc = #tail;
+            }
+            #acc
+        });
+        Some(res)
+    }
+
+    // ---- R-mapsum: X.iter().map(|v| e).sum::<T>() ------------------------------------------
+    fn r_mapsum(&mut self, e: &Expr) -> Option<Expr> {
+        let Expr::MethodCall(mc) = e else { return None };
+        if mc.method != "sum" || !mc.args.is_empty() {
+            return None;
+        }
+        let Expr::MethodCall(m2) = strip_paren(&mc.receiver) else { return None };
+        if m2.method != "map" || m2.args.len() != 1 {
+            return None;
+        }
+        let Expr::Closure(cl) = &m2.args[0] else { return None };
+        if cl.inputs.len() != 1 {
+            return None;
+        }
+        let (kind, base) = self.iter_source(&m2.receiver)?;
+        if kind != "iter" || !is_place(base) {
+            return None;
+        }
+        let place = strip_paren(base).clone();
+        let acc = self.fresh("sum");
+        let idx = self.fresh("k");
+        let vp = pat_inner(&cl.inputs[0]).clone();
+        let (stmts, tail) = closure_body_stmts(&cl.body);
+        let tail = tail?;
+        // element access goes through the unit's index function if the place is listed in the index map
+        let elem: Expr = match &place {
+            Expr::Path(pth) if pth.path.get_ident().map(|i| self.index_map.contains_key(&i.to_string())).unwrap_or(false) => {
+                let f = Ident::new(&self.index_map[&pth.path.get_ident().unwrap().to_string()], proc_macro2::Span::call_site());
+                parse_quote!( #f(&#place, #idx) )
+            }
+            _ => parse_quote!( &#place[#idx] ),
+        };
+        let res: Expr = parse_quote!({
+            let mut #acc = vx_sum_zero();
+            for #idx in 0..#place.len() {
+                let #vp = #elem;
+                #(#stmts)*
+                #acc = #acc + #tail;
+            }
+            #acc
+        });
+        Some(res)
+    }
+
+    // ---- R-sortby: recv.sort_by(f) -> slice_sort_by(recv, f) --------------------------------
+    fn r_sortby(&mut self, e: &Expr) -> Option<Expr> {
+        let Expr::MethodCall(mc) = e else { return None };
+        if mc.method != "sort_by" || mc.args.len() != 1 {
+            return None;
+        }
+        let r = &mc.receiver;
+        let f = &mc.args[0];
+        // the comparator gets a name (closure construction has no effect) so that ghost code can mention it
+        let c = self.fresh("cmp");
+        Some(parse_quote!({ let #c = #f; slice_sort_by(#r, #c); }))
+    }
+
+    // ---- R-index: X[i] on a foreign container named in the unit's index map -----------------
+    fn r_index(&mut self, e: &Expr) -> Option<Expr> {
+        let Expr::Index(ix) = e else { return None };
+        let Expr::Path(pth) = strip_paren(&ix.expr) else { return None };
+        let id = pth.path.get_ident()?.to_string();
+        let f = self.index_map.get(&id)?;
+        let f = Ident::new(f, proc_macro2::Span::call_site());
+        let base = &ix.expr;
+        let i = &ix.index;
+        Some(parse_quote!( #f(&#base, #i) ))
+    }
+
+    // ---- R-binop: `x op y` on a foreign container named in the unit's operator map ----------
+    /// `a op b` is sugar for the operator trait's method; the unit names the stub carrying its contract
+    /// (Verus cannot resolve operator impls on references to generic foreign types).
+    fn r_binop(&mut self, e: &Expr) -> Option<Expr> {
+        let Expr::Binary(b) = e else { return None };
+        let op = match b.op {
+            BinOp::Add(_) => "+",
+            BinOp::Sub(_) => "-",
+            BinOp::Mul(_) => "*",
+            BinOp::Div(_) => "/",
+            _ => return None,
+        };
+        let left = strip_paren(&b.left);
+        let inner = match left {
+            Expr::Reference(r) => strip_paren(&r.expr),
+            other => other,
+        };
+        let Expr::Path(pth) = inner else { return None };
+        let id = pth.path.get_ident()?.to_string();
+        let f = self.binop_map.get(&format!("{}{}", id, op))?;
+        let f = Ident::new(f, proc_macro2::Span::call_site());
+        let l = &b.left;
+        let r = &b.right;
+        Some(parse_quote!( #f(#l, #r) ))
+    }
+
     // ---- R-lit -------------------------------------------------------------------------
     fn r_lit(&mut self, e: &Expr) -> Option<Expr> {
         let Expr::Lit(el) = e else { return None };
@@ -682,6 +816,39 @@ impl VisitMut for Rewriter {
                 *e = n;
                 return;
             }
+            if let Some(n) = self.r_fold_general(e) {
+                self.record("R-fold", line, e, &n);
+                *e = n;
+                return;
+            }
+        }
+        if self.on("R-mapsum") {
+            if let Some(n) = self.r_mapsum(e) {
+                self.record("R-mapsum", line, e, &n);
+                *e = n;
+                return;
+            }
+        }
+        if self.on("R-sortby") {
+            if let Some(n) = self.r_sortby(e) {
+                self.record("R-sortby", line, e, &n);
+                *e = n;
+                return;
+            }
+        }
+        if self.on("R-binop") {
+            if let Some(n) = self.r_binop(e) {
+                self.record("R-binop", line, e, &n);
+                *e = n;
+                return;
+            }
+        }
+        if self.on("R-index") {
+            if let Some(n) = self.r_index(e) {
+                self.record("R-index", line, e, &n);
+                *e = n;
+                return;
+            }
         }
         if self.on("R-fuse") {
             if let Some(n) = self.r_fuse(e) {
@@ -745,6 +912,9 @@ pub fn selftest() -> i32 {
         ("{ let m = format!(\"x {}\", e); println!(\"{}\", m); m }", &["R-fmt"], "{ let m = fmt_opaque () ; m }", &["R-fmt"]),
         ("{ assert_eq!(dim, 2, \"msg\"); }", &["R-assert"], "rt_assert (dim == 2) ;", &["R-assert"]),
         ("{ let h = x.slice(s![.., ..half, ..]); let g = x.slice(s![.., -half.., ..]); let c = d.slice(s![.., .., p]); }", &["R-smacro"], "SPatATA (half)", &["R-smacro", "R-smacro", "R-smacro"]),
+        ("{ let (a, b) = xs.into_iter().fold((vec![], vec![]), |(mut a, mut b), (w, v)| { a.push(w); b.push(v); (a, b) }); }", &["R-fold"], "let mut __vx_acc1 = (vec ! [] , vec ! []) ; for __vx_x1 in xs { let (mut a , mut b) = __vx_acc1 ; let (w , v) = __vx_x1 ; a . push (w) ; b . push (v) ; __vx_acc1 = (a , b) ; } __vx_acc1", &["R-fold"]),
+        ("{ let s = row.iter().map(|v| (v - cm) * (v - cm)).sum::<f32>() / n; }", &["R-mapsum"], "let mut __vx_sum1 = vx_sum_zero () ; for __vx_k1 in 0 .. row . len () { let v = & row [__vx_k1] ; __vx_sum1 = __vx_sum1 + (v - cm) * (v - cm) ; } __vx_sum1", &["R-mapsum"]),
+        ("{ d.as_slice_mut().unwrap().sort_by(|a, b| c(a, b)); }", &["R-sortby"], "{ let __vx_cmp1 = | a , b | c (a , b) ; slice_sort_by (d . as_slice_mut () . unwrap () , __vx_cmp1) ; }", &["R-sortby"]),
         // nothing enabled: nothing changes
         ("{ (0..n).for_each(|i| v[i] = 0.5); }", &[], "(0 .. n) . for_each (| i | v [i] = 0.5) ;", &[]),
     ];
